@@ -825,4 +825,39 @@ theorem closedIv_covers (c : Nat) (iv : Nat × Nat) (p : Nat) : (closedIv c iv).
   unfold closedIv Iv.covers covers
   simp
 
+/-! ### progress of a GVCF step and the batch-size setter -/
+
+theorem stepGvcfs_consumes (flog : Nat → Nat) (s : Plan) (hbf : 1 ≤ s.bf) (hb : 1 ≤ s.batch) (hg : s.gvcfs ≠ []) :
+    (stepGvcfs flog s).gvcfs.length < s.gvcfs.length := by
+  have hm : 1 ≤ s.batch * s.bf := Nat.mul_le_mul hb hbf
+  have hlen : 0 < s.gvcfs.length := List.length_pos_iff.2 hg
+  have hd : (s.gvcfs.drop (s.batch * s.bf)).length = s.gvcfs.length - s.batch * s.bf := List.length_drop
+  unfold stepGvcfs
+  simp only
+  split <;> simp only <;> omega
+
+theorem stepGvcfs_zero_batch (flog : Nat → Nat) (s : Plan) (hb : s.batch = 0) (hg : s.gvcfs ≠ []) :
+    stepGvcfs flog s = s := by
+  unfold stepGvcfs
+  simp only [hb, Nat.zero_mul, List.take_zero, List.drop_zero]
+  have hc : chunks s.bf ([] : List Nat) = [] := by simp [chunks, chunksAux]
+  have hne : s.gvcfs.isEmpty = false := by cases h : s.gvcfs <;> simp_all
+  simp only [hc, List.map_nil, hne, Bool.false_and, Bool.false_eq_true, if_false, List.append_nil]
+  cases s with
+  | mk g n v bf b f =>
+    simp only at hb
+    subst hb
+    cases n <;> simp
+
+theorem clampBatch_pos {nIv v : Nat} (hn : nIv ≤ mergeTaskLimit) (hv : 1 ≤ v) : 1 ≤ clampBatch nIv v := by
+  unfold clampBatch
+  split
+  next h =>
+    have hpos : 0 < nIv := by
+      rcases Nat.eq_zero_or_pos nIv with h0 | h0
+      · subst h0; simp at h
+      · exact h0
+    exact (Nat.le_div_iff_mul_le hpos).2 (by omega)
+  · exact hv
+
 end HailVerif.Combiner
